@@ -54,5 +54,5 @@ Spec == Init /\ [][Next]_<<acc, lbl>>
 
 TypeOK == acc \in PS                       \* the phase never leaves 0..3: no drift
 View == acc
-Emit == PrintT(<<"E", lbl'[1], Enc(acc), Enc(lbl'[2]), Enc(acc'), AntiBit(acc, lbl'[2])>>)
+Emit == PrintT(ToString(<<"E", lbl'[1], Enc(acc), Enc(lbl'[2]), Enc(acc'), AntiBit(acc, lbl'[2])>>))
 =============================================================================
